@@ -18,6 +18,7 @@ import ast
 from ..align import IN, Align, Arr, Opaque, Scalar, fmt_space, same_space
 from ..core import AnalysisError
 from ..defuse import DefUse, Terms, show, specialise, walk_term
+from ..defuse import key as tkey
 from ..tutil import TTUnknown, np_call, strip_conv, tt_eval
 
 EXPLANATION = (
@@ -271,7 +272,7 @@ def _check_prediction(ctx, df, fit):
     if rt[0] == "call" and rt[1] == GS and len(rt[2]) == 2:
         est, feat = rt[2]
         c = feat
-        if c[0] == "mcall" and c[2] == "transform" and show(c[1]) == \
+        if c[0] == "mcall" and c[2] == "transform" and tkey(c[1]) == \
                 "self.scaler" and c[3]:
             arg = strip_conv(c[3][0])
             # psms.features.loc[:, self.features]
@@ -279,17 +280,17 @@ def _check_prediction(ctx, df, fit):
                     "param", pname), "features"), "loc"):
                 idx = arg[2]
                 if idx[0] == "tuple" and len(idx[1]) == 2 and \
-                        show(idx[1][1]) == "self.features" and \
+                        tkey(idx[1][1]) == "self.features" and \
                         idx[1][0][0] == "slice":
-                    ok = show(est) == "self.estimator"
+                    ok = tkey(est) == "self.estimator"
                     why = "estimator is not self.estimator" if not ok else ""
                 else:
                     why = ("features are not selected by the stored names: "
                            f"{show(idx, 100)}")
             elif arg[0] == "sub" and arg[1] == ("attr", ("param", pname),
                                                  "features") and \
-                    show(arg[2]) == "self.features":
-                ok = show(est) == "self.estimator"
+                    tkey(arg[2]) == "self.features":
+                ok = tkey(est) == "self.estimator"
             else:
                 why = ("the matrix given to scaler.transform is "
                        f"{show(arg, 120)}, not psms.features restricted to "
@@ -307,7 +308,7 @@ def _check_prediction(ctx, df, fit):
     for r in raises:
         for test, pol in cfg.guards(r):
             tt = T.of(test)
-            txt = show(tt, 300)
+            txt = tkey(tt, 300)
             if pol and tt[0] == "cmp" and tt[1] == "!=" and \
                     "self.features" in txt and "set(" in txt:
                 guard_ok = True
@@ -330,7 +331,7 @@ def _check_prediction(ctx, df, fit):
         if isinstance(n, ast.Call) and isinstance(n.func, ast.Attribute) \
                 and n.func.attr == "fit_transform":
             scaled = T2.of(n.args[0])
-    ok_scaled = scaled is not None and show(strip_conv(scaled)) == \
+    ok_scaled = scaled is not None and tkey(strip_conv(scaled)) == \
         f"{fpsms}.features"
     ctx.check(ok_names and ok_scaled, "C12c-stored-names-are-training-order",
               fit, "self.features records the column order of the matrix "
